@@ -1,9 +1,12 @@
 package main
 
 import (
+	"errors"
 	"fmt"
+	"net"
 	"runtime"
 	"sort"
+	"strings"
 	"sync"
 	"sync/atomic"
 	"time"
@@ -244,14 +247,14 @@ func runC07(c *Ctx) error {
 		c.count(tag, true, "ending="+ending, fmt.Sprintf("parallel=%v", parallel))
 	}
 	// ---- endings that start on the WRITE side while the reader is parked in a healthy, silent transport
-	wendings := []string{"writeclose", "write-fault", "write-dead", "deadline-fault", "netconn-close"}
+	wendings := []string{"writeclose", "write-fault", "write-dead", "deadline-fault", "netconn-close", "rejected-call-dead-link"}
 	for it := 0; it < 4*len(wendings); it++ {
 		server := it%2 == 0
 		ending := wendings[it%len(wendings)]
 		pmd := (it/len(wendings))%2 == 1
 		h := &lifeHandler{panicAt: map[string]bool{}}
 		h.seq = &seqLog{}
-		spec := connSpec{Server: server, PMD: pmd, RLimit: 5000}
+		spec := connSpec{Server: server, PMD: pmd, RLimit: 5000, WLimit: 1000}
 		conn, tap, err := spec.open(h)
 		if err != nil {
 			return err
@@ -283,6 +286,20 @@ func runC07(c *Ctx) error {
 			werr = conn.SetDeadline(time.Now().Add(time.Hour))
 		case "netconn-close":
 			werr = conn.NetConn().Close()
+		case "rejected-call-dead-link":
+			// a call rejected for its size starts the teardown with one kind of error; the Close frame then fails on a
+			// broken link with an error of another concrete type
+			tap.mu.Lock()
+			tap.writeDeadFrom, tap.writeErr = tap.nWrite, &net.OpError{Op: "write", Net: "tcp", Err: errors.New("broken pipe")}
+			tap.mu.Unlock()
+			func() {
+				defer func() {
+					if r := recover(); r != nil {
+						werr = fmt.Errorf("PANIC: %v", r)
+					}
+				}()
+				werr = conn.WriteMessage(gws.OpcodeBinary, make([]byte, 2000))
+			}()
 		}
 		returned := false
 		select {
@@ -305,6 +322,10 @@ func runC07(c *Ctx) error {
 		}
 		closed, _ := tap.isClosed()
 		switch {
+		case werr != nil && strings.HasPrefix(werr.Error(), "PANIC: "):
+			c.oracleFail(fmt.Sprintf("the write call panicked: %v [%s]", werr, tag), "write-panic", replay)
+			_ = tap.Close()
+			<-rl
 		case !returned:
 			c.oracleFail(fmt.Sprintf("the connection was ended from the write side but ReadLoop did not return within 5 s (OnClose ran %d times, transport closed=%v) [%s]", closes, closed, tag), "readloop-hang", replay)
 			_ = tap.Close()
